@@ -1082,6 +1082,11 @@ class Engine:
             return ExcValue(f.name, tuple(args))
         if isinstance(f, Obj) and '__call__' in f.attrs:
             return self.call(f.attrs['__call__'], args, kwargs)
+        if isinstance(f, SV):
+            from .builtins import value_kind
+            m = self.methods.get((value_kind(f), '__call__'))      # calling an abstract value: given by the contract
+            if m is not None:
+                return m(self, f, *args, **kwargs)
         if isinstance(f, Ty):
             raise EngineError('type used as function')
         raise EngineError('call of %r' % (f,))
